@@ -342,6 +342,64 @@ def explore(rep, tier, exe, n_fixed, n_seeded):
     return sigs
 
 
+def status_corners(rep, exe, d):
+    """The exit status must be non-zero exactly when an error was printed - also on the paths that do not
+    return through main: the error limit (-M emax=N, default and explicit, N around the 8-bit boundary),
+    errors that arise only inside an included file, in the second file of one invocation, from the
+    includer (unbalanced #else/#endif) rather than from the type checker."""
+    def errs(n, kind):
+        if kind == "undef":
+            return "".join("x%d: SingleInteger := undefinedname%d;\n" % (i, i) for i in range(n))
+        return "".join("#else\n" for i in range(n))          # includer errors: #else without #if
+    cases = []
+    for kind in ("undef", "incl"):
+        for n in (1, 9, 10, 11, 255, 256, 257, 300, 512, 600):
+            for emax in (None, 10, 255, 256, 257, 512, "no"):
+                if emax not in (None, "no") and n < emax and n > 12:
+                    continue
+                cases.append((kind, n, emax))
+    import concurrent.futures
+
+    def one(c):
+        kind, n, emax = c
+        dd = "%s/sc_%s_%d_%s" % (d, kind, n, emax)
+        os.makedirs(dd, exist_ok=True)
+        open(dd + "/m.as", "w").write('#include "axllib"\n' + errs(n, kind))
+        args = [a for a in compile_args(exe) if a != "-Mno-emax"]
+        if emax == "no":
+            args.append("-Mno-emax")
+        elif emax is not None:
+            args += ["-M", "emax=%d" % emax]
+        rc, out, err = C.run(args + ["m.as"], cwd=dd, env=C.aldor_env(), timeout=120)
+        return c, rc, out + err
+    n_checked = 0
+    with concurrent.futures.ThreadPoolExecutor(C.NCPU) as ex:
+        for (kind, n, emax), rc, text in ex.map(one, cases):
+            n_checked += 1
+            nerr = len(re.findall(r"(?m)^(\[L\d+ C\d+\] )?#\d+ \((Fatal Error|Error)\)", text))
+            if (nerr > 0) != (rc != 0) or rc < 0 or rc == 124:
+                rep.violation("%d error lines printed, exit status %d (%d %s errors in the source, error limit %s)"
+                              % (nerr, rc, n, "undefined-name" if kind == "undef" else "includer (#else without #if)",
+                                 "default" if emax is None else ("off" if emax == "no" else emax)),
+                              {"errors_in_source": n, "kind": kind, "emax": emax, "rc": rc, "error_lines": nerr,
+                               "cmd": "aldor [-M emax=N | -Mno-emax] m.as", "output_tail": text[-300:]})
+    # errors only inside an included file; errors only in the second file of the invocation
+    dd = d + "/sc_inc"
+    os.makedirs(dd, exist_ok=True)
+    open(dd + "/inc.as", "w").write("y: SingleInteger := undefinedInInclude;\n")
+    open(dd + "/m.as", "w").write('#include "axllib"\n#include "inc.as"\nx: SingleInteger := 1;\n')
+    open(dd + "/good.as", "w").write('#include "axllib"\nx: SingleInteger := 1;\n')
+    open(dd + "/bad.as", "w").write('#include "axllib"\nz: SingleInteger := undefinedInSecondFile;\n')
+    for files in (["m.as"], ["good.as", "bad.as"], ["bad.as", "good.as"]):
+        rc, out, err = C.run(compile_args(exe) + files, cwd=dd, env=C.aldor_env(), timeout=120)
+        n_checked += 1
+        nerr = len(re.findall(r"(?m)^(\[L\d+ C\d+\] )?#\d+ \((Fatal Error|Error)\)", out + err))
+        if (nerr > 0) != (rc != 0):
+            rep.violation("%d error lines printed, exit status %d for files %s" % (nerr, rc, files),
+                          {"files": files, "rc": rc, "error_lines": nerr, "output_tail": (out + err)[-300:]})
+    rep.add_cov(status_corner_cases=n_checked)
+
+
 def run(rep, tier):
     P = generate()
     rep.add_cov(generated_params=P)
@@ -360,6 +418,7 @@ def run(rep, tier):
         nerr = len(re.findall(r"\(Error\)", text))
         if nerr > 0 and rc == 0:
             rep.violation("%d errors printed, exit status 0" % nerr, {"errors": nerr, "rc": rc, "n": n})
+    status_corners(rep, exe, d)
     if tier == "quick":
         explore(rep, tier, exe, 1200, 1500)
     else:
